@@ -331,7 +331,7 @@ package validate
 //@   assume p.Pool != nil
 //@   requires[C04,C11] s != nil && (s == emptyResult || !redeemed(s))
 //@   requires[C04] s == emptyResult || (ownsArrays(s) && sepEW(s))
-//@   modifies redeemed(s)
+//@   modifies when(s != emptyResult, redeemed(s))
 //@   ensures[C04] implies(s != emptyResult, redeemed(s))
 //@   ensures[C04] implies(s == emptyResult, redeemed(s) == old(redeemed(s)))
 
